@@ -133,11 +133,15 @@ class ModelModifier:
     # buffer offsets.
 
     # remove all the constant from the model.
-    for buffer in quantized_model.buffers:
+    for buffer_idx, buffer in enumerate(quantized_model.buffers):
       if buffer.data is not None:
         buffer.data = None
         buffer.offset = 1
-        buffer.size = 1
+        # Use the real size already: flatbuffers omits fields holding the
+        # default value 0, so a placeholder size for an empty constant would
+        # make this dummy model longer than the final one and shift every
+        # offset computed from it.
+        buffer.size = len(self._constant_map[buffer_idx])
     dummy_bytearray = flatbuffer_utils.convert_object_to_bytearray(
         quantized_model
     )
